@@ -277,23 +277,26 @@ def edit_contract(clsname, name):
         r = orig(self, *a, **k)
         cx = ctx("C14")
         try:
-            if getattr(self, "_qv_user_mapping", False) or not hasattr(self, "_variables"):
+            if getattr(self, "_qv_user_mapping", False) or not hasattr(self, "variables"):
                 return r
             cx.count("suite:edit-invariant-checks")
             tv = {x for key in self for x in key}
             errs = []
-            if not tv <= self._variables:
+            # (public accessors only: private attribute names are the library's business)
+            vs_ = self.variables
+            if not tv <= vs_:
                 errs.append("variables-not-superset")
-            if self._num_binary_variables != len(self._variables):
+            if self.num_binary_variables != len(vs_):
                 errs.append("nbv!=len(variables)")
-            if max((len(key) for key in self), default=float("-inf")) > self._degree:
+            if max((len(key) for key in self), default=float("-inf")) > self.degree:
                 errs.append("degree-below-true")
-            if hasattr(self, "_mapping"):
-                if set(self._mapping) != self._variables:
+            if hasattr(self, "mapping"):
+                mp_, rm_ = self.mapping, self.reverse_mapping
+                if set(mp_) != vs_:
                     errs.append("mapping-keys!=variables")
-                if set(self._mapping.values()) != set(range(len(self._mapping))):
+                if set(mp_.values()) != set(range(len(mp_))):
                     errs.append("mapping-values!=range")
-                if {v: kk for kk, v in self._mapping.items()} != self._reverse_mapping:
+                if {v: kk for kk, v in mp_.items()} != rm_:
                     errs.append("reverse_mapping-not-inverse")
             # (no num_ancillas invariant here: the tests write keys named '__a0' by hand into fresh models to build
             #  their expected values -- user labels with the reserved prefix are outside the property)
